@@ -374,7 +374,11 @@ def to_vector(c):
     if c is None or c is False:
         return c
     if hasattr(c, vector):
-        return c
+        # already a labelled array: only make sure it has unit length
+        norm = np.sqrt((c**2).sum(vector))
+        if np.allclose(norm, 1, rtol=1e-14, atol=0):
+            return c
+        return c / norm
     if isinstance(c, dict):
         c = c.copy()
         for key, val in c.items():
